@@ -55,6 +55,7 @@ let dispatch cmd args =
   | "rbsp" ->
       cmd_rbsp (parse_src (arg args 0)) (n_of_string (arg args 1)) (n_of_string (arg args 2))
         (List.map parse_byteop (nonempty (split ',' (arg args 3))))
+  | "refnal" -> cmd_refnal (parse_src (arg args 0)) (List.map parse_byteop (nonempty (split ',' (arg args 1))))
   | "decode_nal" -> cmd_decode_nal (unhex (arg args 0))
   | _ -> Modelrun2.dispatch cmd args
 
